@@ -1,4 +1,5 @@
 import WM.Lemmas.IdSetsMulti
+import WM.Lemmas.IdSetsPool
 /-!
 C20 (doc-id sets): every id-set class behaves as a finite set of naturals.
 
@@ -34,6 +35,17 @@ theorem ondisk_mem (file : List Nat) (basepos count i : Nat) :
   · simp only [h, ↓reduceIte, true_and]
     cases file[basepos + i / 8]? <;> simp
   · simp [h]
+
+/-- `BitSet.to_disk` writes the byte array verbatim; an `OnDiskBitSet` (or `BitSet.from_disk`) over
+    that range of the file — whatever precedes and follows it — is the same byte array, hence the
+    same set under every `BaseBitSet` query. -/
+theorem bitset_to_disk_ondisk (pre bits post : Bits) :
+    onDisk (pre ++ bits ++ post) pre.length bits.length = bits ∧
+      iter (onDisk (pre ++ bits ++ post) pre.length bits.length) = iter bits := by
+  have h : onDisk (pre ++ bits ++ post) pre.length bits.length = bits := by
+    unfold onDisk
+    rw [List.append_assoc, List.drop_left, List.take_left]
+  exact ⟨h, by rw [h]⟩
 
 theorem bitset_add (bits : Bits) (i : Nat) : iter (add bits i) = S.insert i (iter bits) := by
   apply iter_eq_of_mem (WM.Spec.IdSet.sorted_insert (sorted_iter bits))
@@ -128,6 +140,55 @@ example : IdSets.before [5, 0, 0, 64] 30 = .ok (some 2) := by rw [bitset_before]
 example : ∃ r, invertUpdate [5, 255] 4 = .ok r ∧ iter r = [1, 3] := by
   rcases bitset_invert [5, 255] 4 with ⟨r, h1, h2⟩
   exact ⟨r, h1, by rw [h2]; decide⟩
+
+/-! ## `BitSet._logic` over byte arrays of any length, and programs over a pool of sets
+
+`_logic(obj, op, other)` is the engine behind `BitSet ∘ BitSet` union / intersection / difference,
+the operator forms and `intersection_update` / `difference_update`.  The two byte arrays may have
+any lengths — in particular zero, which a `BitSet` has exactly when it is the trimmed result of an
+earlier `_logic` call or comes from `from_bytes(b"")`. -/
+
+theorem bitset_logic_or (a b : Bits) : iter (logic (· ||| ·) a b) = S.union (iter a) (iter b) :=
+  iter_logic_or a b
+theorem bitset_logic_and (a b : Bits) : iter (logic (· &&& ·) a b) = S.inter (iter a) (iter b) :=
+  iter_logic_and a b
+theorem bitset_logic_andnot (a b : Bits) : iter (logic andNot a b) = S.diff (iter a) (iter b) :=
+  iter_logic_andNot a b
+/-- the result of `_logic` is trimmed (no trailing zero byte), whatever the operands. -/
+theorem bitset_logic_trimmed (op : Nat → Nat → Nat) (a b : Bits) : (logic op a b).getLast? ≠ some 0 :=
+  trim_getLast _
+/-- AND with a zero-length right operand empties the left one (it is *not* returned unchanged). -/
+theorem bitset_logic_and_empty (a : Bits) : logic (· &&& ·) a [] = [] := logic_and_nil a
+
+example : logic andNot [5, 2] [5, 2] = [] ∧ logic (· &&& ·) [5, 2, 0] [] = []
+    ∧ logic (· ||| ·) [] [0, 4, 0] = [0, 4] ∧ logic andNot [7] [] = [7] := by
+  simp [logic, zipLongest, trim, andNot]
+
+/-- One step of a program over a pool of `BitSet` / `SortedIntSet` registers — binary methods and
+    operator forms between any two registers (results fed back on either side), the in-place
+    variants, `add/discard/clear/invert/copy`, fresh sets — is the set operation on the abstractions
+    of the registers; a program naming a missing register is rejected by both. -/
+theorem idset_pool_step (p : Pool) (hok : p.Ok) (op : PoolOp) (hd : op.InDomain p) :
+    Refines (p.step op) (WM.Spec.IdSet.SPool.step (p.map Inner.iter) op) :=
+  pool_step_refines p hok op hd
+
+/-- … and so is every program. -/
+theorem idset_pool_run (p : Pool) (ops : List PoolOp) (hok : p.Ok) (hd : p.DomAll ops) :
+    Refines (p.run ops) (WM.Spec.IdSet.SPool.run (p.map Inner.iter) ops) :=
+  pool_run_refines ops p hok hd
+
+/-- Non-vacuity: `r2 = r0 - r1` trims to a zero-length array, `r0 &= r2` then empties `r0`. -/
+example : Pool.run [.bits [5, 2], .bits [5, 2, 0], .bits [9]] [.bin .diff 2 0 1, .upd .inter 0 2]
+    = .ok [.bits [], .bits [5, 2, 0], .bits []] := by
+  simp [Pool.run, Pool.step, Pool.reg, Pool.assign, Inner.bin, Inner.upd, Inner.asOther, difference,
+    intersectionUpdate, logic, zipLongest, trim, andNot, bind, Except.bind]
+example : Pool.Ok [.bits [5, 2], .bits [5, 2, 0], .sorted [1, 4]] := by
+  intro s hs
+  simp only [List.mem_cons, List.not_mem_nil, or_false] at hs
+  rcases hs with rfl | rfl | rfl
+  · trivial
+  · trivial
+  · show Sorted [1, 4]; unfold Sorted; decide
 
 /-! ## SortedIntSet (`data` strictly ascending is the class invariant) -/
 
@@ -249,6 +310,16 @@ theorem rev_difference_update (r : Rev) (h : r.inner.WF) (o : Other) :
   refine ⟨r', h1, h2, h3, ?_⟩
   apply WM.Spec.IdSet.sorted_ext (rev_iter r' h2).2 (WM.Spec.IdSet.sorted_diff (rev_iter r h).2)
   intro x; rw [h4, WM.Spec.IdSet.mem_diff]
+
+/-- inherited `intersection_update` (`for n in self: if n not in other: self.discard(n)`): intersection -/
+theorem rev_intersection_update (r : Rev) (h : r.inner.WF) (o : Other) :
+    ∃ r', r.intersectionUpdate o = .ok r' ∧ r'.inner.WF ∧ r'.limit = r.limit ∧ r'.iter = S.inter r.iter o.items :=
+  Rev.intersectionUpdate_spec r h o
+example : ∃ r', (Rev.mk (.sorted [2, 5]) 8).intersectionUpdate (.list [7, 3, 5, 0] true) = .ok r' ∧
+    r'.iter = [0, 3, 7] := by
+  rcases rev_intersection_update (Rev.mk (.sorted [2, 5]) 8) (by unfold Inner.WF Sorted; decide)
+    (.list [7, 3, 5, 0] true) with ⟨r', h1, _, _, h4⟩
+  exact ⟨r', h1, by rw [h4]; decide⟩
 
 /-- Full statement for the rest of the set API of `ReverseIdSet` — false: recorded findings. -/
 def rev_api_full : Prop := ∀ (r : Rev) (i : Int), r.inner.WF →
